@@ -78,7 +78,7 @@ type scn struct {
 	spelling    string
 	signal      int // 0 content-length n, 1 content-length 0, 2 chunked, 3 neither
 	body        []byte
-	stream      int // 0 plain 1 zero-length reads first 2 first byte with EOF 3 error before first byte 4 error after first byte 5 empty
+	stream      int // 0 plain 1 zero-length reads first 2 first byte with EOF 3 error before first byte 4 error after first byte 5 empty 6 the first read fails once (a timeout), the data follows
 	// a sibling operation on the same path (other method, other consumes list) that is served first on the same Context
 	sibling     bool
 	sibMethod   string
@@ -144,7 +144,11 @@ func generate(t *kernel.Tape) *scn {
 		s.body = []byte(`7`)
 	}
 	if s.signal == 2 {
-		s.stream = t.Weighted("stream", 3, 2, 2, 2, 2, 2)
+		s.stream = t.Weighted("stream", 3, 2, 2, 2, 2, 2, 2)
+	}
+	if s.signal == 0 {
+		// a declared length says "there is a body" whatever the stream then does
+		s.stream = []int{0, 1, 3, 4, 6}[t.Weighted("stream-under-declared-length", 4, 1, 2, 1, 2)]
 	}
 	if t.Bool(3, "sibling-operation") {
 		s.sibling = true
@@ -323,6 +327,9 @@ func (prop) Run(t *testing.T, tape *kernel.Tape, sc kernel.Scenario) *kernel.Res
 		case 4:
 			st.Data = content[:1]
 			st.Term = &kernel.InjectedError{What: "read error after the first byte"}
+		case 6:
+			st.TransientErrAt = 0
+			readable = false // whoever asks is told about the failure, not handed a byte
 		}
 		r.Body = st
 		if s.ctxDone {
